@@ -142,6 +142,15 @@ func init() {
 			}
 			panic(unsupported{"fresh: not a pointer"})
 		},
+		// has(m, k): key k is present in map m
+		"has": func(e *SpecEnv, a []Val) Val {
+			m, ok := a[0].(MapV)
+			if !ok {
+				panic(unsupported{"has: not a map"})
+			}
+			e.c.declareFun("MapHas", "(Int Int) Bool")
+			return Scalar{"(MapHas " + m.Id + " " + e.c.keyID(e.st, a[1]) + ")", boolSort}
+		},
 		"sign": func(e *SpecEnv, a []Val) Val {
 			v := a[0].(Scalar)
 			is := Sort{K: "int", W: 64, Sg: true}
